@@ -28,6 +28,7 @@ GROUPS = {
         U("values", "ToThreadInExecutor"), U("values", "SyncExecute"), U("values", "StrictDictSetitem"), U("values", "BiDictSetitem"),
         U("values", "CopyNonSetupXns"), U("values", "GetReturnValues"),
     ],
+    "nodeexec": [U("nodeexec", "Execute"), U("nodeexec", "Dependencies"), U("nodeexec", "ConfToValues")],
     "threads": [U("threads", "InDescriptionContext"), U("threads", "ThreadsafeMakeDag")],
 }
 
